@@ -31,8 +31,9 @@ def BeqLe (α : Type) [Num α] : Prop := ∀ a b : α, Num.beq a b = true → Nu
 
 /-- The update of method `m` never falls below a common lower bound `p` of its two arguments
 (all values good; positive sizes; for the methods that read the merged distance: that distance is
-good and `≤ p`).  True in exact arithmetic for single, complete, average, weighted, Ward; not under
-float rounding for the three arithmetic ones; not needed for centroid and median. -/
+good and `≤ p`).  True in exact arithmetic for single, complete, average, weighted, Ward; for the
+clamped average in every ordered number type (`lbClosed_average`); not under float rounding for
+weighted and Ward; not needed for centroid and median. -/
 def LBClosed (G : α → Prop) (m : Method) : Prop :=
   ∀ (sizes : Array Nat) (sa sb : Nat) (dist : α) (x : Nat) (va vb v p : α),
     (∀ i (h : i < sizes.size), 0 < sizes[i]) →
@@ -68,6 +69,11 @@ theorem lbClosed_of_reducible {G : α → Prop} (gs : GoodSet G) {m : Method}
   injection h with h
   subst h
   exact hred va vb p sa sb 0 (gs.notNaN _ gva) (gs.notNaN _ gvb) (gs.notNaN _ gp) h1 h2
+
+/-- The CLAMPED average (`method::average` after the `fix:` commit) is `LBClosed` in every ordered
+number type and for every good set — no exact arithmetic (`Spec.reducible_average`). -/
+theorem lbClosed_average (L : OrderLaws α) {G : α → Prop} (gs : GoodSet G) : LBClosed G .average :=
+  lbClosed_of_reducible gs rfl (reducible_average L)
 
 /-! ### Order helpers -/
 
